@@ -6,6 +6,7 @@ package rules
 import (
 	"fmt"
 	"go/token"
+	"go/types"
 	"strings"
 
 	"golang.org/x/tools/go/ssa"
@@ -291,6 +292,28 @@ func RuleV(c *Ctx) {
 			got, want = state[accKey], "add(acc,mul(a[i],b[i]))"
 		} else {
 			got, want = state["result[i]"], "add(a[i],mul(b[i],x))"
+			if _, has := state["result[i]"]; !has {
+				// result grown by one append per iteration from empty: element i is what iteration i appends
+				for _, in := range cl.loop.Header.Instrs {
+					phi, isPhi := in.(*ssa.Phi)
+					if !isPhi {
+						continue
+					}
+					elem, acl, okFill := appendFill(phi)
+					if !okFill || acl.loop.Header != cl.loop.Header {
+						continue
+					}
+					returned := false
+					for _, r := range successReturns(fn) {
+						if len(r.Results) > 0 && r.Results[0] == ssa.Value(phi) {
+							returned = true
+						}
+					}
+					if ld, isLd := elem.(*ssa.UnOp); isLd && ld.Op == token.MUL && returned {
+						got = get(ld.X)
+					}
+				}
+			}
 		}
 		switch {
 		case undec != "":
@@ -312,13 +335,13 @@ func RuleV(c *Ctx) {
 		ok := x != nil
 		var why []string
 		nSucc := 0
-		for _, r := range core.Returns(fn) {
-			if len(r.Results) != 3 || !core.IsNilConst(r.Results[2]) {
+		for _, rt := range core.ReturnTuples(fn) {
+			if len(rt.Vals) != 3 || !core.IsNilConst(rt.Vals[2]) {
 				continue
 			}
 			nSucc++
-			lo, okLo := r.Results[0].(*ssa.Slice)
-			hi, okHi := r.Results[1].(*ssa.Slice)
+			lo, okLo := rt.Vals[0].(*ssa.Slice)
+			hi, okHi := rt.Vals[1].(*ssa.Slice)
 			if !okLo || !okHi || lo.X != ssa.Value(x) || hi.X != ssa.Value(x) {
 				ok = false
 				why = append(why, "the halves are not slices of x")
@@ -359,4 +382,116 @@ func loopHeaderCut(cl *countedLoop) *core.Cuts {
 		cut.AddInstr(i)
 	}
 	return cut
+}
+
+// RuleV5 — what a round of the IPA prover commits to and absorbs is computed in that round.
+func RuleV5(c *Ctx) {
+	c.Rule("V5", "round-local values of the IPA prover: in CreateIPAProof's round loop, a value carried over from an earlier round can reach the arguments of a commitment, an inner product or a transcript absorb only if it is one of the vectors the round splits (a, b, the basis); counters, error values and accumulators that never reach such an argument (the L/R lists being filled) are free. A partial commitment or scalar left over from an earlier round that a later round can still use is reported")
+	fn := c.P.Fn("ipa", "", "CreateIPAProof")
+	if fn == nil {
+		c.Unresolved("V5", "ipa.CreateIPAProof")
+		return
+	}
+	c.Saw(core.FnName(fn))
+	var splits []*ssa.Call
+	for _, name := range []string{"splitScalars", "splitPoints"} {
+		splits = append(splits, callsTo(fn, "/ipa", "", name)...)
+	}
+	loops := core.Loops(fn)
+	var round *core.Loop
+	for _, sp := range splits {
+		if l := core.OutermostLoop(loops, sp.Block()); l != nil {
+			round = l
+		}
+	}
+	if round == nil {
+		// the splits may have been inlined: the loop that calls commit
+		for _, cm := range callsTo(fn, "/ipa", "", "commit") {
+			if l := core.OutermostLoop(loops, cm.Block()); l != nil {
+				round = l
+			}
+		}
+	}
+	if round == nil {
+		c.Und("V5", "CreateIPAProof:round-loop", fn.Pos(), "the round loop (the loop that splits a, b and the basis) is not recognised")
+		return
+	}
+	// sinks: arguments of the group/field computations and of the transcript inside the loop
+	type sink struct {
+		call ssa.CallInstruction
+		arg  ssa.Value
+	}
+	var sinks []sink
+	for _, ci := range core.CallsIn(fn) {
+		if !round.Blocks[ci.Block()] {
+			continue
+		}
+		f := core.Callee(ci.Common())
+		if f == nil {
+			continue
+		}
+		isSink := core.IsFunc(f, "/ipa", "commit") || core.IsFunc(f, "/ipa", "MultiScalar") || core.IsFunc(f, "/ipa", "InnerProd") ||
+			core.IsMethod(f, "/common", "Transcript", "AppendPoint") || core.IsMethod(f, "/common", "Transcript", "AppendScalar")
+		if !isSink {
+			continue
+		}
+		for _, a := range ci.Common().Args {
+			sinks = append(sinks, sink{ci, a})
+		}
+	}
+	if len(sinks) == 0 {
+		c.Und("V5", "CreateIPAProof:round-loop", fn.Pos(), "no commitment or absorb found in the round loop")
+		return
+	}
+	// the vectors a round splits: values whose halves (x[:m], x[m:]) are taken in the loop, directly or by splitScalars/splitPoints
+	splitVec := map[ssa.Value]bool{}
+	for _, sp := range splits {
+		if round.Blocks[sp.Block()] && len(sp.Call.Args) > 0 {
+			splitVec[core.StripConv(sp.Call.Args[0])] = true
+		}
+	}
+	core.AllInstrs(fn, func(i ssa.Instruction) {
+		if sl, ok := i.(*ssa.Slice); ok && round.Blocks[sl.Block()] && (sl.Low != nil || sl.High != nil) {
+			splitVec[core.StripConv(sl.X)] = true
+		}
+	})
+	n := 0
+	for _, in := range round.Header.Instrs {
+		phi, ok := in.(*ssa.Phi)
+		if !ok {
+			continue
+		}
+		n++
+		name := phi.Comment
+		if name == "" {
+			name = phi.Name()
+		}
+		key := "CreateIPAProof:carried:" + name
+		if b, isBasic := phi.Type().Underlying().(*types.Basic); isBasic && b.Info()&(types.IsInteger|types.IsBoolean) != 0 {
+			c.OK("V5", key, phi.Pos(), "a counter")
+			continue
+		}
+		if isErrorType(phi.Type()) {
+			c.OK("V5", key, phi.Pos(), "an error value")
+			continue
+		}
+		if splitVec[phi] {
+			c.OK("V5", key, phi.Pos(), "one of the vectors the round splits")
+			continue
+		}
+		reach := core.ReachFrom([]ssa.Value{phi}, func(*ssa.Call, int) bool { return true })
+		var hit *sink
+		for k := range sinks {
+			if reach[sinks[k].arg] {
+				hit = &sinks[k]
+				break
+			}
+		}
+		if hit == nil {
+			c.OK("V5", key, phi.Pos(), "carried, but never reaches a commitment, inner product or absorb (an accumulator)")
+			continue
+		}
+		c.Bad("V5", key, phi.Pos(), fmt.Sprintf("%s is carried over from earlier rounds of the IPA prover and reaches %s at %s without being one of the vectors the round splits: a later round can use what an earlier round computed (e.g. a partial commitment that should have been recomputed or reset)", name, core.CalleeName(hit.call.Common()), c.P.Pos(hit.call.Pos())))
+	}
+	c.FloorN("V5", 3, n, "loop-carried values of the round loop")
 }
